@@ -49,6 +49,15 @@ Lemma gen_rbf_offsets :
   gen_rbf_offset_bump_function = 0 /\ 0 < gen_rbf_offset_thin_plate.
 Proof. repeat split; try reflexivity. unfold gen_rbf_offset_thin_plate. lra. Qed.
 
+(* an explicit offset (zero included) is used as given; None falls back on the table for a
+   named function and on zero for a callable; a named function is looked up, a callable used *)
+Lemma gen_rbf_resolution : forall (o l : R) (b : bool) (f g : R -> R),
+  gen_rbf_resolve_offset (Some o) b l = o /\
+  gen_rbf_resolve_offset None true l = l /\
+  gen_rbf_resolve_offset None false l = 0 /\
+  gen_rbf_resolve_rbf true f g = f /\ gen_rbf_resolve_rbf false f g = g.
+Proof. intros. repeat split. Qed.
+
 (* sanity of the named functions on their domain r >= 0 *)
 Lemma sq_nonneg : forall r, 0 <= r ^ 2.
 Proof. intros; simpl; nra. Qed.
